@@ -86,6 +86,8 @@ class WorldA:
         self.check_rng = random.Random(plan["check_seed"])
         self.hooks: list[Any] = []  # property-specific checkers: fn(world, op, info)
         self.on_reset: list[Any] = []  # observers of every single reset inside a burst
+        self.on_compiled: list[Any] = []  # observers of a successful compile (before the birth tests)
+        self.on_compile_error: list[Any] = []  # observers of a compile that raised: fn(circ, exc)
         self._new_context()
 
     # ------------------------------------------------------------------ utilities
@@ -239,6 +241,8 @@ class WorldA:
         except SimFault:
             raise HarnessError("SimFault without an armed fault")
         except Exception as e:
+            for fn in self.on_compile_error:
+                fn(c, e)
             # could the same circuit be compiled at all?  (state-independent failure = birth)
             if self._fresh_compile_ok(c):
                 raise Violation(
@@ -251,6 +255,8 @@ class WorldA:
             self.tr.count(f"excluded:{c.excluded}")
             return {"status": "excluded"}
         c.cc = cc
+        for fn in self.on_compiled:
+            fn(c)
         # birth: evaluate immediately; the same-flags reference must exist as well
         try:
             outs = [oracles.evaluate(cc, X) for X in self._probes_for_new(c)]
